@@ -74,6 +74,20 @@ func TestReplay(t *testing.T) {
 	}
 }
 
+// decorrelate: the subtests of the parser kinds run in one process with one
+// rapid seed, so their first draws (the buffer geometry, the text) would be
+// the same for every kind. A kind-dependent number of values is drawn and
+// thrown away first, which shifts the rest of the random stream.
+func decorrelate(t *rapid.T, kind string) {
+	k := 0
+	for i, c := range []byte(kind) {
+		k += (i + 1) * int(c)
+	}
+	for k %= 11; k > 0; k-- {
+		rapid.Uint64().Draw(t, "decorrelate")
+	}
+}
+
 // kindsFromEnv lets the driver restrict a run to some parser kinds.
 func kindsFromEnv(def []string) []string {
 	if v := os.Getenv("VERIF_KINDS"); v != "" {
@@ -113,6 +127,8 @@ func (pp parserProp) body(fixedKind string, st *propStats) func(t *rapid.T) {
 		kind := fixedKind
 		if kind == "" {
 			kind = rapid.SampledFrom(pp.fuzzKinds).Draw(t, "kind")
+		} else {
+			decorrelate(t, kind)
 		}
 		cfg := genPCfg(t, kind, pp.maxBuf)
 		if pp.tweak != nil {
